@@ -207,6 +207,45 @@ def unit_C17(src):
     return u
 
 
+def swizzle_words(letters, maxlen):
+    import itertools
+    return [''.join(w) for n in range(1, maxlen + 1) for w in itertools.product(letters, repeat=n)]
+
+
+def unit_C16s(src_swz):
+    """the 550 swizzle accessors (expansion with --features swizzle); each contract is generated from the accessor NAME"""
+    from emit import Contract
+    from common import base_type
+    u = Unit('C16s', src_swz, 'R')
+    lib = SpecLib()
+    F = c_vector.build(lib)
+    c_point.build(lib, F)
+    u.spec_texts.append(lib.text())
+    expected = {}
+    for n in (1, 2, 3, 4):
+        expected['Vector%d' % n] = set(swizzle_words('xyzw'[:n], 4))
+    for n in (1, 2, 3):
+        expected['Point%d' % n] = set(swizzle_words('xyz'[:n], 3))
+
+    def contracts(unit, im, f):
+        if im is None or im.trait is not None:
+            return None
+        st, _ = base_type(im.selfty)
+        if st in expected and re.fullmatch(r'[xyzw]{1,4}', f.name):
+            if f.name not in expected[st]:
+                return None
+            pre = ('v%d' if st.startswith('Vector') else 'p%d') % len(f.name)
+            return Contract(ensures=['ret == %s_new(%s)' % (pre, ', '.join('self.' + c for c in f.name))])
+        return None
+    u.contract_fns += [contracts, c_point.contracts, c_vector.contracts]
+    for ty, words in expected.items():
+        u.select(Sel(None, r'%s<S>' % ty, ['new'] + sorted(words)))
+    u.select(Sel('Clone', r'(Vector[1-4]|Point[1-3])<S>'), Sel('Copy', r'(Vector[1-4]|Point[1-3])<S>'))
+    u.struct_names = ['Vector1', 'Vector2', 'Vector3', 'Vector4', 'Point1', 'Point2', 'Point3']
+    u.expected_swizzles = expected
+    return u
+
+
 def unit_C06(src, angle_kind='Rad'):
     u = Unit('C06' + ('' if angle_kind == 'Rad' else 'deg'), src, 'R')
     lib, F = full_base(u, angle_kind)
@@ -460,11 +499,17 @@ def unit_C01t(src, model='R'):
     return u
 
 
+def Source_swz():
+    import driver
+    from extract import Source
+    return Source(driver.expand('swizzle'))
+
+
 def build_C03(src, tier):
     return [unit_C03(src, 'R')]
 
 
-UNITS = {'C17': lambda src, tier: [unit_C17(src)], 'C09': lambda src, tier: [unit_C09(src, 'q'), unit_C09(src, 'b3'), unit_C09(src, 'b2'), unit_C09i(src)], 'C15': lambda src, tier: [unit_arc(src, 'C15')], 'C14': lambda src, tier: [unit_arc(src, 'C14')], 'C18': lambda src, tier: [unit_C18(src)], 'C11': lambda src, tier: [unit_C11(src)], 'C10': lambda src, tier: [unit_C10(src, 'Rad'), unit_C10(src, 'Deg')], 'C08': lambda src, tier: [unit_C08(src, 'q'), unit_C08(src, 'b3'), unit_C08(src, 'b2')], 'C05': lambda src, tier: [unit_conv(src, 'C05', 'Rad')], 'C07': lambda src, tier: [unit_conv(src, 'C07', 'Rad'), unit_conv(src, 'C07', 'Deg')], 'C06': lambda src, tier: [unit_C06(src, 'Rad'), unit_C06(src, 'Deg')], 'C13': lambda src, tier: [unit_C13(src, 'R')], 'C04': lambda src, tier: [unit_C04(src, 'R')], 'C02': lambda src, tier: [unit_C02(src, 'R'), unit_C02t(src)], 'C01': lambda src, tier: [unit_C01(src, 'R'), unit_C01t(src, 'R')], 'C03': build_C03, 'C12': lambda src, tier: [unit_C12(src, 'R')]}
+UNITS = {'C16': lambda src, tier: [unit_C16s(Source_swz())], 'C17': lambda src, tier: [unit_C17(src)], 'C09': lambda src, tier: [unit_C09(src, 'q'), unit_C09(src, 'b3'), unit_C09(src, 'b2'), unit_C09i(src)], 'C15': lambda src, tier: [unit_arc(src, 'C15')], 'C14': lambda src, tier: [unit_arc(src, 'C14')], 'C18': lambda src, tier: [unit_C18(src)], 'C11': lambda src, tier: [unit_C11(src)], 'C10': lambda src, tier: [unit_C10(src, 'Rad'), unit_C10(src, 'Deg')], 'C08': lambda src, tier: [unit_C08(src, 'q'), unit_C08(src, 'b3'), unit_C08(src, 'b2')], 'C05': lambda src, tier: [unit_conv(src, 'C05', 'Rad')], 'C07': lambda src, tier: [unit_conv(src, 'C07', 'Rad'), unit_conv(src, 'C07', 'Deg')], 'C06': lambda src, tier: [unit_C06(src, 'Rad'), unit_C06(src, 'Deg')], 'C13': lambda src, tier: [unit_C13(src, 'R')], 'C04': lambda src, tier: [unit_C04(src, 'R')], 'C02': lambda src, tier: [unit_C02(src, 'R'), unit_C02t(src)], 'C01': lambda src, tier: [unit_C01(src, 'R'), unit_C01t(src, 'R')], 'C03': build_C03, 'C12': lambda src, tier: [unit_C12(src, 'R')]}
 import kani_driver
 KANI = kani_driver.GROUPS
 from meta import META
